@@ -930,6 +930,9 @@ class Interp:
         for a in args:
             if self._stack_member(a) is not None:
                 raise Unsupported("operand stack passed to %s in %s" % (c.get("fn"), fn["q"]))
+        for s1, fl1 in res:
+            if fl1[0] == "next":
+                self.record("ext", c, s1, fn, self)
         return self._with_throws(c, res)
 
     def _prim(self, sid, api, c, name, args, st, fn):
